@@ -98,3 +98,78 @@ theorem method_spec {σ ι ο : Type} (new : Res σ) (next : σ → ι → Excep
   exact ⟨s0, os, s', hn, hr, hlen, fun i hi => by simpa using houts i hi⟩
 
 end Yata
+
+namespace Yata
+variable {σ ι ο : Type}
+
+/-- `new_over` on an empty input constructs nothing and returns no output -/
+theorem newOver_nil (new : ι → Res σ) (next : σ → ι → Except Panic (ο × σ)) :
+    newOver new next [] = .ok [] := rfl
+
+/-- `new_over` on a non-empty input = construct from the first element, then `over` all of it -/
+theorem newOver_cons (new : ι → Res σ) (next : σ → ι → Except Panic (ο × σ)) (x : ι) (xs : List ι)
+    {s : σ} (hs : new x = .ok s) {os : List ο} {s' : σ} (hr : runM next s (x :: xs) = .ok (os, s')) :
+    newOver new next (x :: xs) = .ok os := by
+  simp [newOver, hs, hr, Res.bind, Res.map, Res.ofExcept]
+
+/-- `WithHistory` returns the inner outputs unchanged and remembers all of them -/
+theorem withHistory_run (next : σ → ι → Except Panic (ο × σ)) (s : σ) (pre : List ο) (xs : List ι)
+    {os : List ο} {s' : σ} (hr : runM next s xs = .ok (os, s')) :
+    runM (WithHistory.next next) { history := pre, instance_ := s } xs =
+      .ok (os, { history := pre ++ os, instance_ := s' }) := by
+  induction xs generalizing s pre os with
+  | nil => simp [runM] at hr; simp [runM, hr.1, hr.2]
+  | cons x xs ih =>
+    simp only [runM] at hr
+    cases hn : next s x with
+    | error e => simp [hn] at hr
+    | ok p =>
+      obtain ⟨o, s1⟩ := p
+      simp only [hn] at hr
+      cases hr1 : runM next s1 xs with
+      | error e => simp [hr1] at hr
+      | ok q =>
+        obtain ⟨os1, s2⟩ := q
+        simp only [hr1, Except.ok.injEq, Prod.mk.injEq] at hr
+        obtain ⟨rfl, rfl⟩ := hr
+        simp [runM, WithHistory.next, hn, ih s1 (pre ++ [o]) hr1]
+
+/-- `get i` of the history wrapper is the `i`-th newest output (none beyond the history) -/
+theorem withHistory_get (w : WithHistory σ ο) (i : Nat) : w.get i = w.history.reverse[i]? := by
+  unfold WithHistory.get checkedSub
+  by_cases h : i + 1 ≤ w.history.length
+  · simp only [h, ↓reduceIte]
+    rw [List.getElem?_reverse (by omega)]
+    congr 1; omega
+  · simp only [h, ↓reduceIte]
+    rw [List.getElem?_eq_none]; simp; omega
+
+/-- `WithLastValue::new` feeds the initial value once; afterwards it is the inner machine,
+    and `peek` is the output produced last -/
+theorem withLastValue_run (next : σ → ι → Except Panic (ο × σ)) (s : σ) (init : ι) (xs : List ι)
+    {o0 : ο} {s0 : σ} (h0 : next s init = .ok (o0, s0)) {os : List ο} {s' : σ}
+    (hr : runM next s0 xs = .ok (os, s')) :
+    ∃ w0, WithLastValue.new next s init = .ok w0 ∧ w0.peek = o0 ∧
+      runM (WithLastValue.next next) w0 xs =
+        .ok (os, { last_value := (o0 :: os).getLast (by simp), instance_ := s' }) := by
+  refine ⟨{ last_value := o0, instance_ := s0 }, by simp [WithLastValue.new, h0], rfl, ?_⟩
+  clear h0
+  induction xs generalizing s0 o0 os with
+  | nil => simp [runM] at hr; simp [runM, hr.1, hr.2]
+  | cons x xs ih =>
+    simp only [runM] at hr
+    cases hn : next s0 x with
+    | error e => simp [hn] at hr
+    | ok p =>
+      obtain ⟨o, s1⟩ := p
+      simp only [hn] at hr
+      cases hr1 : runM next s1 xs with
+      | error e => simp [hr1] at hr
+      | ok q =>
+        obtain ⟨os1, s2⟩ := q
+        simp only [hr1, Except.ok.injEq, Prod.mk.injEq] at hr
+        obtain ⟨rfl, rfl⟩ := hr
+        simp only [runM, WithLastValue.next, hn, ih hr1]
+        simp [List.getLast_cons]
+
+end Yata
